@@ -127,3 +127,10 @@ func Disjoint[T any](a, b []T) bool {
 	}
 	return true
 }
+
+// Ghost1 is an uninterpreted ghost function: contracts give it meaning by the
+// facts they state about it. It cannot be evaluated when a counterexample is
+// replayed.
+func Ghost1[A, R any](name string, a A) R {
+	panic(AssumeFailed{})
+}
